@@ -26,15 +26,48 @@
 #define NEWPOS 0
 #endif
 #define CAP 4
-NC_lead_req old_lead[CAP]; NC_req old_req[CAP]; int G; int g_pack_calls; const void *g_pack_buf, *g_pack_xbuf;
+NC_lead_req old_lead[CAP]; NC_req old_req[CAP]; int G; int g_pack_calls, g_pack_ret; const void *g_pack_buf, *g_pack_xbuf;
 long long IN_begin_new, IN_begin[NLP ? NLP : 1], IN_start0; int IN_flags, IN_maxid; _Bool IN_isrec;
 
 int ncmpio_pack_xbuf(int fmt, NC_var *varp, MPI_Offset bufcount, MPI_Datatype buftype, int buftype_is_contig, MPI_Offset nelems,
                      MPI_Datatype itype, int el_size, MPI_Datatype imaptype, int need_convert, int need_swap, size_t xbuf_size, void *buf, void *xbuf)
 __CPROVER_requires(xbuf != NULL)
-__CPROVER_assigns(__CPROVER_object_whole(xbuf), g_pack_calls, g_pack_buf, g_pack_xbuf)
+__CPROVER_assigns(__CPROVER_object_whole(xbuf), g_pack_calls, g_pack_ret, g_pack_buf, g_pack_xbuf)
 __CPROVER_ensures(g_pack_calls == __CPROVER_old(g_pack_calls) + 1 && g_pack_buf == buf && g_pack_xbuf == xbuf)
+/* NC error codes are not positive */
+__CPROVER_ensures(__CPROVER_return_value <= 0 && g_pack_ret == __CPROVER_return_value)
 ;
+
+/* splitting a multi-record request into one sub-request per record: under its own contract (job
+ * ncmpio_add_record_requests), replaced here - sub-request fields only, the start/count vectors are its business */
+int g_addrec_calls; long long IN_a_start0, IN_a_stride0; int GI;
+#ifdef H_addrec
+#define AR_ND 2
+#ifndef WITH_STRIDE
+#define WITH_STRIDE 0
+#endif
+/* stride NULL or not is a per-instance constant: it decides the length of the memcpy, and CBMC's memcpy model
+ * is wrong for a symbolic length (the last element is not copied; reproduced outside this code base) */
+#define AR_CHUNK (WITH_STRIDE ? 3 * AR_ND : 2 * AR_ND)
+int ncmpio_add_record_requests(NC_lead_req *lead_list, NC_req *reqs, MPI_Offset num_recs, const MPI_Offset *stride)
+__CPROVER_requires(num_recs == NEWN && GI >= 1 && GI < NEWN && reqs[0].lead_off == 0 && lead_list[0].varp->ndims == AR_ND && lead_list[0].varp->xsz == 4 && reqs[0].nelems == 3)
+__CPROVER_requires(reqs[0].start[0] == IN_a_start0 && IN_a_start0 >= 0 && IN_a_start0 < ((long long)1 << 40) && IN_a_stride0 >= 0 && IN_a_stride0 < ((long long)1 << 20) && (IN_a_stride0 != 0) == (WITH_STRIDE != 0) &&
+                   (IN_a_stride0 ? stride != NULL && stride[0] == IN_a_stride0 && reqs[0].start[2 * AR_ND] == IN_a_stride0 : stride == NULL))
+__CPROVER_assigns(__CPROVER_object_upto(reqs, NEWN * sizeof(NC_req)), __CPROVER_object_whole(reqs[0].start))
+__CPROVER_ensures(__CPROVER_return_value == NC_NOERR)
+__CPROVER_ensures(reqs[GI].start == reqs[0].start + GI * AR_CHUNK && reqs[GI].start[0] == IN_a_start0 + GI * (IN_a_stride0 ? IN_a_stride0 : 1)) /*@subrequest_addresses_its_own_record*/
+__CPROVER_ensures(reqs[GI].start[AR_ND] == 1 && reqs[0].start[AR_ND] == 1 && reqs[GI].start[1] == reqs[0].start[1] && reqs[GI].start[AR_ND + 1] == reqs[0].start[AR_ND + 1]) /*@one_record_each_other_dimensions_copied*/
+__CPROVER_ensures(IMPLIES(IN_a_stride0 != 0, reqs[GI].start[2 * AR_ND] == IN_a_stride0 && reqs[GI].start[2 * AR_ND + 1] == reqs[0].start[2 * AR_ND + 1])) /*@stride_vector_copied*/
+__CPROVER_ensures(reqs[GI].lead_off == reqs[0].lead_off && reqs[GI].nelems == reqs[0].nelems && reqs[GI].xbuf == (char *)reqs[0].xbuf + GI * 3 * 4) /*@subrequest_points_back_and_owns_its_slice_of_the_buffer*/
+;
+#else
+int ncmpio_add_record_requests(NC_lead_req *lead_list, NC_req *reqs, MPI_Offset num_recs, const MPI_Offset *stride)
+__CPROVER_requires(num_recs == NEWN && NEWN == 2 && stride == NULL && g_addrec_calls == 0)
+__CPROVER_assigns(reqs[1].start, reqs[1].nelems, reqs[1].lead_off, reqs[1].xbuf, g_addrec_calls)
+__CPROVER_ensures(__CPROVER_return_value == NC_NOERR && g_addrec_calls == 1 && reqs[1].lead_off == reqs[0].lead_off && reqs[1].nelems == reqs[0].nelems)
+__CPROVER_ensures(__CPROVER_pointer_equals(reqs[1].xbuf, (char *)reqs[0].xbuf + reqs[0].nelems * 4))
+;
+#endif
 
 static inline int spec_newpos(const NC *ncp)      /* position the new lead must take: after every pending lead whose variable begins at or below it */
 {
@@ -47,32 +80,52 @@ static inline int spec_newpos(const NC *ncp)      /* position the new lead must 
 #define OLDPOS_TO_NEW(g, np) ((g) < (np) ? (g) : (g) + 1)
 #define NNEW (IN_isrec ? NEWN : 1)
 
+#ifndef H_addrec
 int ncmpio_igetput_varm(NC *ncp, NC_var *varp, const MPI_Offset start[], const MPI_Offset count[], const MPI_Offset stride[], const MPI_Offset imap[],
                         void *buf, MPI_Offset bufcount, MPI_Datatype buftype, int *reqid, int reqMode)
 __CPROVER_requires(ncp->numLeadPutReqs == NLP && ncp->numPutReqs == NLP && G >= 0 && G < (NLP ? NLP : 1) && reqMode == (NC_REQ_WR | NC_REQ_NBI | NC_REQ_HL))
 __CPROVER_requires(varp->ndims == 1 && stride == NULL && imap == NULL && bufcount == NC_COUNT_IGNORE && buftype == MPI_INT && varp->xtype == NC_INT && varp->xsz == 4)
 __CPROVER_requires(count[0] == NNEW && start[0] == IN_start0 && IN_start0 >= 0 && IN_start0 < 1000 && ncp->recsize >= 0 && ncp->recsize < ((long long)1 << 30) && varp->begin == IN_begin_new)
 __CPROVER_requires(g_pack_calls == 0 && ncp->maxPutReqID == IN_maxid)
-__CPROVER_assigns(*reqid, __CPROVER_object_whole(ncp), __CPROVER_object_whole(ncp->put_lead_list), __CPROVER_object_whole(ncp->put_list), g_pack_calls, g_pack_buf, g_pack_xbuf,
+__CPROVER_assigns(ncp->put_lead_list != NULL: __CPROVER_object_whole(ncp->put_lead_list))
+__CPROVER_assigns(ncp->put_list != NULL: __CPROVER_object_whole(ncp->put_list))
+__CPROVER_assigns(*reqid, __CPROVER_object_whole(ncp), g_pack_calls, g_pack_ret, g_pack_buf, g_pack_xbuf, g_addrec_calls,
                   __CPROVER_object_whole(buf), GH_TYPES)
-__CPROVER_ensures(__CPROVER_return_value == NC_NOERR || __CPROVER_return_value == NC_ERANGE) /*@valid_post_accepted*/
-__CPROVER_ensures(ncp->numLeadPutReqs == NLP + 1 && ncp->numPutReqs == NLP + NNEW) /*@one_lead_and_one_subrequest_per_record_added*/
-__CPROVER_ensures(*reqid == (NLP == 0 ? 0 : IN_maxid + 2) && (*reqid & 1) == 0 && ncp->maxPutReqID == *reqid && ncp->put_lead_list[NP].id == *reqid) /*@fresh_even_id_larger_than_all_pending*/
-__CPROVER_ensures(ncp->put_lead_list[NP].nonlead_num == NNEW && ncp->put_lead_list[NP].nonlead_off == NP && ncp->put_lead_list[NP].varp == varp && ncp->put_lead_list[NP].buf == buf) /*@new_request_recorded*/
-__CPROVER_ensures(ncp->put_list[NP].lead_off == NP && ncp->put_list[NP + NNEW - 1].lead_off == NP) /*@new_subrequests_point_back*/
-__CPROVER_ensures(IMPLIES(IN_isrec && NEWN > 1, ncp->put_list[NP + 1].start[0] == IN_start0 + 1 && ncp->put_list[NP + 1].xbuf == (char *)ncp->put_list[NP].xbuf + 4)) /*@one_subrequest_per_record_with_its_own_slice*/
-__CPROVER_ensures(IMPLIES(NLP > 0, ncp->put_lead_list[OLDPOS_TO_NEW(G, NP)].id == old_lead[G].id && ncp->put_lead_list[OLDPOS_TO_NEW(G, NP)].buf == old_lead[G].buf &&
-      ncp->put_lead_list[OLDPOS_TO_NEW(G, NP)].flag == old_lead[G].flag && ncp->put_lead_list[OLDPOS_TO_NEW(G, NP)].nonlead_num == old_lead[G].nonlead_num)) /*@pending_request_unchanged*/
-__CPROVER_ensures(IMPLIES(NLP > 0, ncp->put_lead_list[OLDPOS_TO_NEW(G, NP)].nonlead_off == old_lead[G].nonlead_off + (G < NP ? 0 : NNEW))) /*@pending_request_offset_shifted_by_number_inserted*/
-__CPROVER_ensures(IMPLIES(NLP > 0, ncp->put_list[old_lead[G].nonlead_off + (G < NP ? 0 : NNEW)].lead_off == OLDPOS_TO_NEW(G, NP) &&
-      ncp->put_list[old_lead[G].nonlead_off + (G < NP ? 0 : NNEW)].xbuf == old_req[old_lead[G].nonlead_off].xbuf)) /*@pending_subrequest_kept_and_points_back*/
+#define ACC (g_pack_ret == NC_NOERR || g_pack_ret == NC_ERANGE)
+__CPROVER_ensures(IMPLIES(ACC, __CPROVER_return_value == NC_NOERR || __CPROVER_return_value == NC_ERANGE)) /*@valid_post_accepted*/
+__CPROVER_ensures(IMPLIES(!ACC, __CPROVER_return_value == g_pack_ret && ncp->numLeadPutReqs == NLP && ncp->numPutReqs == NLP && ncp->maxPutReqID == IN_maxid)) /*@failed_packing_queues_nothing*/
+__CPROVER_ensures(IMPLIES(ACC, ncp->numLeadPutReqs == NLP + 1 && ncp->numPutReqs == NLP + NNEW)) /*@one_lead_and_one_subrequest_per_record_added*/
+__CPROVER_ensures(IMPLIES(ACC, *reqid == (NLP == 0 ? 0 : IN_maxid + 2) && (*reqid & 1) == 0 && ncp->maxPutReqID == *reqid && ncp->put_lead_list[NP].id == *reqid)) /*@fresh_even_id_larger_than_all_pending*/
+__CPROVER_ensures(IMPLIES(ACC, ncp->put_lead_list[NP].nonlead_num == NNEW && ncp->put_lead_list[NP].nonlead_off == NP && ncp->put_lead_list[NP].varp == varp && ncp->put_lead_list[NP].buf == buf)) /*@new_request_recorded*/
+__CPROVER_ensures(IMPLIES(ACC, ncp->put_list[NP].lead_off == NP && ncp->put_list[NP + NNEW - 1].lead_off == NP)) /*@new_subrequests_point_back*/
+__CPROVER_ensures(IMPLIES(ACC, IMPLIES(IN_isrec && NEWN > 1, g_addrec_calls == 1 && ncp->put_list[NP].nelems == 1 && ncp->put_list[NP + 1].xbuf == (char *)ncp->put_list[NP].xbuf + 4))) /*@one_subrequest_per_record_with_its_own_slice*/
+__CPROVER_ensures(IMPLIES(ACC, IMPLIES(NLP > 0, ncp->put_lead_list[OLDPOS_TO_NEW(G, NP)].id == old_lead[G].id && ncp->put_lead_list[OLDPOS_TO_NEW(G, NP)].buf == old_lead[G].buf &&
+      ncp->put_lead_list[OLDPOS_TO_NEW(G, NP)].flag == old_lead[G].flag && ncp->put_lead_list[OLDPOS_TO_NEW(G, NP)].nonlead_num == old_lead[G].nonlead_num))) /*@pending_request_unchanged*/
+__CPROVER_ensures(IMPLIES(ACC, IMPLIES(NLP > 0, ncp->put_lead_list[OLDPOS_TO_NEW(G, NP)].nonlead_off == old_lead[G].nonlead_off + (G < NP ? 0 : NNEW)))) /*@pending_request_offset_shifted_by_number_inserted*/
+__CPROVER_ensures(IMPLIES(ACC, IMPLIES(NLP > 0, ncp->put_list[old_lead[G].nonlead_off + (G < NP ? 0 : NNEW)].lead_off == OLDPOS_TO_NEW(G, NP) &&
+      ncp->put_list[old_lead[G].nonlead_off + (G < NP ? 0 : NNEW)].xbuf == old_req[old_lead[G].nonlead_off].xbuf))) /*@pending_subrequest_kept_and_points_back*/
 /* C13: data is captured (packed) at posting time, from the caller's buffer */
-__CPROVER_ensures(g_pack_calls == 1 && g_pack_buf == buf && g_pack_xbuf == ncp->put_lead_list[NP].xbuf) /*@C13_data_captured_at_post_time*/
-__CPROVER_ensures(IMPLIES(ncp->put_lead_list[NP].xbuf == buf, (ncp->put_lead_list[NP].flag & NC_REQ_BUF_BYTE_SWAP) != 0 && !(ncp->flags & NC_MODE_SWAP_OFF))) /*@C13_in_place_use_of_caller_buffer_is_flagged_for_swap_back*/
+__CPROVER_ensures(IMPLIES(ACC, g_pack_calls == 1 && g_pack_buf == buf && g_pack_xbuf == ncp->put_lead_list[NP].xbuf)) /*@C13_data_captured_at_post_time*/
+__CPROVER_ensures(IMPLIES(ACC, IMPLIES(ncp->put_lead_list[NP].xbuf == buf, (ncp->put_lead_list[NP].flag & NC_REQ_BUF_BYTE_SWAP) != 0 && !(ncp->flags & NC_MODE_SWAP_OFF)))) /*@C13_in_place_use_of_caller_buffer_is_flagged_for_swap_back*/
 ;
+#endif
 
 #include TU_i_getput_c
 
+#ifdef H_addrec
+static NC_lead_req lead[1]; static NC_req rq[NEWN]; static NC_var avar; static MPI_Offset vec[3 * AR_ND * NEWN], strd[AR_ND]; static char xb[NEWN * 12];
+void harness(void)
+{
+    GI = nondet_int(); IN_a_start0 = nondet_ll(); IN_a_stride0 = nondet_ll();
+    __CPROVER_assume(GI >= 1 && GI < NEWN && IN_a_start0 >= 0 && IN_a_start0 < ((long long)1 << 40) && IN_a_stride0 >= 0 && IN_a_stride0 < ((long long)1 << 20) && (IN_a_stride0 != 0) == (WITH_STRIDE != 0));
+    avar.ndims = AR_ND; avar.xsz = 4; lead[0].varp = &avar;
+    for (int k = 0; k < 3 * AR_ND; k++) vec[k] = nondet_ll();
+    vec[0] = IN_a_start0; vec[AR_ND] = NEWN; vec[2 * AR_ND] = IN_a_stride0; strd[0] = IN_a_stride0; strd[1] = vec[2 * AR_ND + 1];
+    rq[0].start = vec; rq[0].lead_off = 0; rq[0].nelems = 3; rq[0].xbuf = xb;
+    int r = ncmpio_add_record_requests(lead, rq, NEWN, WITH_STRIDE ? strd : NULL);
+    CANARY(r == NC_NOERR && IN_a_stride0 == 0, "contiguous_records"); CANARY(r == NC_NOERR && IN_a_stride0 > 1, "strided_records"); CANARY(r == NC_NOERR && IN_a_stride0 == 1, "unit_stride");
+}
+#else
 static NC nc; static NC_var var, ovar[NLP ? NLP : 1]; static MPI_Offset shp[1], st[1], ct[1]; static char ubuf[16], obuf[NLP ? NLP : 1][8];
 void harness(void)
 {
@@ -80,7 +133,7 @@ void harness(void)
     G = nondet_int(); __CPROVER_assume(G >= 0 && G < (NLP ? NLP : 1));
     IN_begin_new = 1000 * NEWPOS + 500; IN_start0 = 0; IN_flags = nondet_int(); IN_isrec = nondet_bool(); IN_maxid = nondet_int();
     __CPROVER_assume(IN_maxid >= 0 && IN_maxid < 100000 && (IN_maxid & 1) == 0);
-    NC_lead_req *leads = malloc(CAP * sizeof(NC_lead_req)); NC_req *reqs = malloc(CAP * sizeof(NC_req));
+    NC_lead_req *leads = NLP ? malloc(CAP * sizeof(NC_lead_req)) : NULL; NC_req *reqs = NLP ? malloc(CAP * sizeof(NC_req)) : NULL;
     for (int k = 0; k < NLP; k++) {
         IN_begin[k] = 1000 * (k + 1);   /* enumerated layout: the insertion position NEWPOS is a compile-time constant */
         ovar[k].begin = IN_begin[k]; ovar[k].ndims = 1; ovar[k].xsz = 4;
@@ -94,9 +147,10 @@ void harness(void)
     nc.recsize = 64; nc.abuf = NULL; nc.get_lead_list = NULL; nc.get_list = NULL; nc.numLeadGetReqs = 0; nc.numGetReqs = 0;
     var.ndims = 1; var.xtype = NC_INT; var.xsz = 4; var.begin = IN_begin_new; shp[0] = IN_isrec ? NC_UNLIMITED : 100; var.shape = shp;
     st[0] = IN_start0; ct[0] = IN_isrec ? NEWN : 1;
-    g_pack_calls = 0;
+    g_pack_calls = 0; g_pack_ret = 0; g_addrec_calls = 0;
     int id = -7;
     int r = ncmpio_igetput_varm(&nc, &var, st, ct, NULL, NULL, ubuf, NC_COUNT_IGNORE, MPI_INT, &id, NC_REQ_WR | NC_REQ_NBI | NC_REQ_HL);
     CANARY(r == NC_NOERR && nc.put_lead_list[0].id == id && NLP > 0, "inserted_first"); CANARY(r == NC_NOERR && nc.put_lead_list[NLP].id == id, "appended_last");
     CANARY(r == NC_NOERR && IN_isrec, "record_request"); CANARY(r == NC_NOERR && nc.put_lead_list[spec_newpos(&nc)].xbuf == (void *)ubuf, "in_place");
 }
+#endif
